@@ -769,7 +769,13 @@ func confirmAndWrite(spec Spec, scs []*Scenario, f Finding) (string, bool) {
 					found = true
 				}
 			}
-			sig := out + "\n" + strings.Join(trace, "\n")
+			var det []string
+			for _, l := range trace {
+				if !strings.HasPrefix(l, "      | ") { // stack dumps carry addresses
+					det = append(det, l)
+				}
+			}
+			sig := out + "\n" + strings.Join(det, "\n")
 			if !found || (i > 0 && sig != first) {
 				return "", false
 			}
